@@ -137,6 +137,100 @@ CLAIMS.update({
         ref='DESIGN.md section 3, C13'),
 })
 
+CLAIMS.update({
+    'C10': dict(
+        technique='path-enumerating abstract interpretation of sweep_move (flip/toggle pairing); residue-class '
+                  '(mod 4) abstract interpretation of code geometry and flip_edge; wrap-axis agreement',
+        text='Decides for both sweep decoders: every flip_edge is paired in the same iteration with one mod-2 toggle of '
+             'the correction at the same edge (assignment is not a toggle), corrections are Z-only and decode returns '
+             'to_bsf of them; for every edge residue class of Toric3D/Planar3D (cubic decoder) and '
+             'RotatedPlanar3D/RotatedToric3D (rotated decoder) flip_edge toggles exactly the faces whose support '
+             'contains the edge (transpose relation, all sizes at once in the bulk), toggles are s -> 1-s under an '
+             'is_stabilizer guard, and periodic axes of the code are wrapped by the decoder. One known finding '
+             '(rotated decoder x RotatedToric3DCode: no wrap). Not decided: termination, step bounds.',
+        note=TRUST + 'Bulk analysis; boundaries are delegated to the is_stabilizer/is_qubit filters whose presence is '
+                     'checked.',
+        ref='DESIGN.md section 3, C10'),
+    'C11': dict(
+        technique='term-level abstract interpretation of run_once and _run; whole-package call-graph reachability of '
+                  'global random generators',
+        text='Partial claim. Decides: the recorded dictionary binds error/syndrome/correction/effective_error/codespace '
+             'to generate -> measure -> decode -> (correction+error) mod 2 -> classify, with the supplied generator '
+             'handed down; _run appends exactly one value per trial to each per-trial list and increments n_runs once '
+             '(from empty and from loaded state); get_results computes n_fail, n_runs, n_fail/n_runs and the standard '
+             'error; nothing reachable from _run draws from a process-global generator when an rng is supplied. Not '
+             'decided: unbiasedness against the exact failure probability, bit-for-bit equality of third-party decoders.',
+        note=TRUST,
+        ref='DESIGN.md section 3, C11'),
+    'C12': dict(
+        technique='must-pass-through / who-may-write checks on the save path; abstract interpretation of resume '
+                  'identity, result loading, the batch loop (over loaded-count configurations) and the interrupt handler',
+        text='Partial claim. Decides: the results file is never opened in a truncating mode and is replaced by os.replace '
+             'from a sibling temporary on every normal exit; no other writer in the simulation package; (data, path) '
+             'order at every save_json call; a stored record is adopted only on equality of the whole inputs (code, '
+             'noise, decoder, rate); loading assigns (never extends) own keys; every trial is run(1) under n_results < '
+             'n_trials, all simulations end at exactly the target and the last save follows the last trial (54 '
+             'configurations of target/loaded counts/save frequency); interrupted saves are repeated and re-raised. '
+             'Not decided: byte-offset crash enumeration (os.replace atomicity is trusted).',
+        note=TRUST,
+        ref='DESIGN.md section 3, C12'),
+    'C14': dict(
+        technique='structural quotient/remainder pairing (value numbering on the straight-line split); injectivity of '
+                  'task naming; bounded partial evaluation of run_parallel with I/O replaced by recorders',
+        text='Partial claim. Decides structurally that each remainder added to a per-share quotient is the remainder of '
+             'the same division and goes to one share, and that result/progress file names depend injectively on the '
+             'task index. Additionally (bounded, not a proof) interprets the whole function for every configuration up '
+             'to a bound: trials conserved per input, >= 1 trial and own files per task, nothing raises. The unbounded '
+             'integer arithmetic is not decided.',
+        note=TRUST + 'glob returns the same order on every node of one run.',
+        ref='DESIGN.md section 3, C14'),
+    'C15': dict(
+        technique='table agreement writer/reader; sympy normal forms of the estimator formulas; provenance (def-use) of '
+                  'every *_se column; symbolic-array interpretation of the sector counts',
+        text='Decides: per-trial columns written by the simulator = columns concatenated by aggregate, additive columns '
+             'summed, identity columns only taken with first(); group-by key = full identity, sorted; n_fail, p_est, '
+             'standard error sqrt(p(1-p)/(n+1)) (all five sites), word error rate and its propagated error as algebraic '
+             'identities; every *_se column derives from the standard-error function and no estimate column does; '
+             'count_fails = sum of the sector block over in-codespace rows, single-qubit patterns and columns; all '
+             'containers end in read_entry which flattens merged lists. Not decided: pandas semantics, duplicate paths.',
+        note=TRUST + 'sympy (tooling venv) decides the identities; a violation is reported only with a numeric witness.',
+        ref='DESIGN.md section 3, C15'),
+    'C16': dict(
+        technique='structural checks of the threshold summary and ordering; partial evaluation of get_fit_status on '
+                  'single-fault entries; sympy identity of the ansatz siblings',
+        text='Partial claim: recovery of a planted threshold is numerical and NOT decided. Decided: threshold and interval '
+             'are median and q/1-q quantiles (q <= 1/2) of one bootstrap column; rows/parameter sets/crossover table are '
+             'sorted and the bootstrap generator is seeded with a constant (order independence by construction); '
+             'fit_status is success exactly for a valid fit inside the data range and fit_found mirrors it; fit_function, '
+             'quadratic and rescale_prob are the documented ansatz with parameters in fit order and curve_fit is called '
+             'on (p, d) columns of the truncated table.',
+        note=TRUST,
+        ref='DESIGN.md section 3, C16'),
+    'C19': dict(
+        technique='loop-carried dependence of written paths; arange stop-factor rule; exact rational evaluation of the '
+                  'direction; end-to-end partial evaluation generate_input -> get_simulations with recorders',
+        text='Decides: the file written inside the bias-ratio loop has a path depending on the loop variable; the '
+             'inclusive range stops a sub-step after max (plus 12 decimal-grid evaluations); the direction for each '
+             'axis/ratio is (eta/(1+eta), rest split equally), exactly summing to 1, inf handled; for two complete '
+             'requests the generated specifications, read back by get_simulations, are exactly sizes x rates per bias '
+             'ratio with the requested classes, the right direction per file and constructor-compatible parameters. Not '
+             'decided: floating-point values of arbitrary progressions.',
+        note=TRUST,
+        ref='DESIGN.md section 3, C19'),
+    'C20': dict(
+        technique='string-set abstract interpretation of stabilizer_type vs the JSON data file; evaluation of the menu '
+                  'handlers; interpretation of the data handlers with library classes replaced by recorders',
+        text='Partial claim (main.js not analysed). Decides for all 16 GUI codes and both pictures that every stabilizer '
+             'type string has a complete drawing entry with known colours, the code table lists every library class '
+             'once, decoders offered = decoders declaring support, deformations offered = advertised names, and that '
+             'code-data / decode / new-errors responses carry stabilizer_matrix, logicals and representations of the same '
+             '(deformed) instance in index order, build noise model and decoder from the request with accepted keyword '
+             'arguments and return the halves of decode(). Three known findings (empty rotated tables of the 2-D colour '
+             'codes).',
+        note=TRUST + 'gui-config.json is read as data; Flask routing is trusted.',
+        ref='DESIGN.md section 3, C20'),
+})
+
 NOT_APPLICABLE = {
     'C01': 'validity of a code (commutation, anticommutation pattern, GF(2) rank) is matrix algebra over every '
            'lattice size: a statement about runtime values with no clause visible in the shape of the code; the '
